@@ -200,6 +200,10 @@ func c03Exact(args []string) error {
 		ax, ang, t := v3.Vec{X: u(-1, 1), Y: u(-1, 1), Z: u(-1, 1)}, u(-7, 7), v3.Vec{X: u(-5, 5), Y: u(-5, 5), Z: u(-5, 5)}
 		k, of := u(0.3, 3), u(0, 1.5)
 		chain := sdf.Offset3D(sdf.ScaleUniform3D(sdf.Transform3D(b3, sdf.Translate3d(t).Mul(sdf.Rotate3d(ax, ang))), k), of)
+		// the scaling applied in two steps, directly on top of each other
+		k1 := u(0.3, 3)
+		chain2 := sdf.Offset3D(sdf.ScaleUniform3D(sdf.ScaleUniform3D(sdf.Transform3D(b3, sdf.Translate3d(t).Mul(sdf.Rotate3d(ax, ang))), k1), k/k1), of)
+		kk := k1 * (k / k1)
 		prof := sdf.Transform2D(b2, sdf.Translate2d(v2.Vec{X: s2.X/2 + u(0, 3), Y: u(-2, 2)}))
 		pb := prof.BoundingBox()
 		rev, _ := sdf.Revolve3D(prof)
@@ -208,6 +212,9 @@ func c03Exact(args []string) error {
 			q := rodrigues(ax, -ang, p.DivScalar(k).Sub(t))
 			reg("Offset(ScaleUniform(Transform(Box3D)))").cmp(chain.Evaluate(p),
 				k*(boxOracle([]float64{q.X, q.Y, q.Z}, []float64{s3.X/2 - rb, s3.Y/2 - rb, s3.Z/2 - rb})-rb)-of, tag)
+			q = rodrigues(ax, -ang, p.DivScalar(k/k1).DivScalar(k1).Sub(t))
+			reg("Offset(ScaleUniform(ScaleUniform(Transform(Box3D))))").cmp(chain2.Evaluate(p),
+				kk*(boxOracle([]float64{q.X, q.Y, q.Z}, []float64{s3.X/2 - rb, s3.Y/2 - rb, s3.Z/2 - rb})-rb)-of, tag)
 			// revolved rectangle: distance in the (rho, z) half plane (profile entirely at rho >= 0)
 			c := pb.Center()
 			rho := math.Hypot(p.X, p.Y)
